@@ -1,4 +1,5 @@
 import WV.Proofs.C17_Inv
+import WV.Proofs.C17_Keep
 
 /-!
 C17 helper lemmas, part 3: the Manager inputs that come from the peer's messages and from the
@@ -136,7 +137,7 @@ theorem stopConnecting_core {ps : String} {pend : List Thunk} {w : World} (h : I
   · simp only [withConnector, hlen']; rw [h3, hv, hvc]
 
 theorem reconnect_inv {ps : String} {pend : List Thunk} {w : World} (hnl : ¬ ps < w.mySide)
-    (h : Inv ps pend w) (hm : w.hasMgr = true) :
+    (h : Inv ps pend w) (hm : w.hasMgr = true) (ht : TimerOk w) :
     Inv ps pend (mInput .rx_RECONNECT "" 0 w).1 := by
   unfold mInput
   cases hms : w.ms <;> simp only [Manager.table]
@@ -146,7 +147,9 @@ theorem reconnect_inv {ps : String} {pend : List Thunk} {w : World} (hnl : ¬ ps
     have hc' : w.conn = some c := hc
     have e : core (mOuts "" 0 [.abandon_connection] { w with ms := .ABANDONING }).1 =
         { core w with ms := .ABANDONING, conns := (disconnect c w).conns } := by
-      simp [mOuts, mOut, hc', andThen, core, disconnect]
+      simp only [mOuts]
+      rw [abandon_eval "" 0 { w with ms := .ABANDONING } ht c hc']
+      simp [andThen, core, disconnect]
     show InvC ps pend (core _)
     rw [e]
     obtain ⟨hle, _⟩ := disconnect_core c w
